@@ -89,6 +89,9 @@ CHECKS["C13"] = table("C13", "TblAuthz.tla transcribes the authorization-request
 CHECKS["C14"] = table("C14", "TblIDToken.tla states, per OpenID flow (code, implicit x2, hybrid x2, refresh, device), when an ID Token is issued (openid granted, non-empty subject, pre-set expiry not in the past) and what it is bound to (algorithm of the signing key, at_hash / c_hash presence and hash size, nonce, aud, sub, iss, exp window), and the max_age / prompt / id_token_hint conditions as a function of auth_time - requested_at; every row is executed end to end with real RSA / P-256 / P-384 / P-521 keys and the token is parsed and verified with the public key; hashes are recomputed with the standard library.", "DESIGN.md 6 C14")
 CHECKS["C15"] = table("C15", "TblAssertion.tla: every private_key_jwt client assertion and every JWT-bearer grant in which at most 2 (thorough 3) fields deviate from the all-right assertion (method, registered/other algorithm incl. none and HS256, kid, signing key, iss, sub, aud incl. list forms, exp incl. wrong type, nbf, iat, jti, optional-claim switches, scope) with the expected accept/refuse; each is signed for real and presented, an accepted one is presented a second time and must be refused. Concurrency: Steps.tla/MCSteps.tla (ScnJti) explore every interleaving of the storage steps of two and three simultaneous presentations of one assertion and check JtiAtMostOnce; the schedules (sampled at quick, all at thorough) are forced on real goroutines and validated step by step.", "DESIGN.md 6 C15")
 
+CHECKS["C20"] = table("C20", "TblErrorWire.tla: writer (access, PAR, device, authorize query/fragment/form_post/no-redirect, introspection, revocation) x 16 RFC errors x legacy/new format x debug exposure x 9 kinds of hostile hint/debug text -> status, content type, cache headers, placement, member set and the decoded description/hint/debug as a composition of atoms (debug only when exposed); all 10368 rows are written by the real Write* functions and decoded with independent parsers. NoSecretToStorage: StoreEvents.tla validates the classified trace of every storage-interface call (key classes per method, no secret or complete credential in a key or in a stored form) recorded from every flow with both credential transports and both token strategies.", "DESIGN.md 6 C20")
+CHECKS["C20"]["technique"] = "TLA+ decision specification enumerated by TLC into a table executed on the real writers; storage-interface traces recorded from the real code validated by a TLA+ trace specification (StoreEvents)"
+
 NOT_YET = "check not built yet in this session (planned, see DESIGN.md section 10); nothing is claimed"
 
 def main():
